@@ -368,7 +368,17 @@ def witnesses():
     w1d = prog([A("z", 5), A("x", 1), A("y", 2)], [A("x", "2*x + y**2 + z"), A("y", "2*y - y**2 + 2*z"), A("z", 0)])
     w2 = prog([A("z", 0), A("x", 1), A("y", 2)],
               [CH("z", [(F(1, 2), "z + 1"), (F(1, 2), "z - 1")]), A("x", "2*x + y**2 + z**2"), A("y", "2*y - y**2 + 2*z")])
-    return [{"name": "witness:summing-special-cases", "ast": w1, "cand": None, "deg": 1, "family": "witness"},
+    # random, correlated initial values of the candidate variables: the initial value of a candidate of degree 2 needs
+    # E(x0**2), E(x0*y0), not products of means
+    nl_body = [DRAW("z", ("bern", P.const(F(1, 2)))),
+               ("if", [(EQ("z", 0), [SIM(["x", "y"], ["x + x*y", "(1/3)*x + (2/3)*y + x*y"])])],
+                [SIM(["x", "y"], ["x + y + (2/3)*x*y", "2*y + (2/3)*x*y"])])]
+    w3 = prog([CH("x", [(F(1, 2), 1), (F(1, 2), 3)]), A("y", "2*x")], nl_body)
+    w4 = prog([CH("z", [(F(1, 3), 0), (F(2, 3), 2)]), CH("x", [(F(1, 2), 1), (F(1, 2), -1)]), A("y", "x + z")],
+              [CH("z", [(F(1, 2), "z + 1"), (F(1, 2), "z - 1")]), A("x", "2*x + y**2 + z"), A("y", "2*y - y**2 + 2*z")])
+    return [{"name": "witness:random-correlated-initial-values", "ast": w3, "cand": ["x", "y"], "deg": 2, "family": "witness"},
+            {"name": "witness:random-initial-values-squares", "ast": w4, "cand": None, "deg": 2, "family": "witness"},
+            {"name": "witness:summing-special-cases", "ast": w1, "cand": None, "deg": 1, "family": "witness"},
             {"name": "witness:summing-special-cases-deterministic", "ast": w1d, "cand": None, "deg": 1, "family": "witness"},
             {"name": "witness:derandomised-loop", "ast": w2, "cand": None, "deg": 1, "family": "witness"}]
 
